@@ -155,6 +155,17 @@ def check_parse(ctx, sql, d, case):
     for tree in trees:
         if tree is None:
             continue
+        for st in tree.find_all(exp.Star):
+            m = st._meta
+            if m and "start" in m and not (m["start"] == 0 and m["end"] == 0):   # (0, 0): star synthesised for FROM-first syntax
+                ctx.count("node_positions_checked")
+                s0, e0 = m["start"], m["end"]
+                if not (0 <= s0 <= e0 < len(sql)) or sql[s0:e0 + 1] != "*":
+                    ctx.violation(f"node:{dn}:star-position-does-not-select-the-star", {"sql": sql, "meta": dict(m), "selected": sql[s0:e0 + 1][:20]}, case)
+                    return
+                if (m.get("line"), m.get("col")) != line_col(sql, e0):
+                    ctx.violation(f"node:{dn}:line-col", {"sql": sql, "name": "*", "meta": dict(m)}, case)
+                    return
         for n in tree.find_all(exp.Identifier):
             m = n._meta
             if not m or "start" not in m:
@@ -233,6 +244,11 @@ def worker(ctx):
         if kind in ("drop", "alter-add") and rng.random() < 0.5:
             continue
         variants = [respace(rng, s), respace(rng, plant_error(rng, s))]
+        if i % 4 == 0:
+            star = rng.choice(["SELECT * EXCEPT (a, b) FROM t", "SELECT t.* REPLACE (a + 1 AS a) FROM t", "SELECT * EXCLUDE (a) FROM t AS t",
+                               "SELECT x, * ILIKE 'c%' FROM t", "SELECT * EXCLUDE (a) RENAME (b AS c) FROM t", "SELECT COUNT(*), t.* FROM t",
+                               "SELECT * EXCEPT (a) REPLACE (b * 2 AS b) FROM (SELECT * FROM u) AS t"])
+            variants.append(respace(rng, star, uni=False))
         if rng.random() < 0.3:
             # quoted identifiers spanning lines / multi-byte names, in the dialect-independent double-quote form
             variants.append(respace(rng, s.replace(" AS p", ' AS "p\n' + rng.choice(UNI) + '"', 1)))
